@@ -299,6 +299,148 @@ let handle_e1 id rest =
     if pst >= 0 && pbest <> fxret then report "ell1-best" id (Printf.sprintf "model=%h impl=%h" pbest fxret)
   end
 
+
+(* ---- n-D ellipsoid: ev_ellipsoid_update events of the real solver ---------------------------------------------------- *)
+(* (a) the extracted deep-cut step (C03e_model, canonical rationals) from the recorded (x, H, g, f, best, s) against the
+       recorded (x', H');  (b) independently of the model: the known minimiser is inside the recorded ellipsoid after
+       the step -- (x* - x')' H'^-1 (x* - x') <= 1 -- by exact Gaussian elimination over Q (Zarith) *)
+module E = C03e_model
+let ell_steps = ref 0
+let ell_member = ref 0
+let amb_elln = ref 0
+let ell_worst = ref 0.0
+let ell_worst_dev = ref 0.0
+let propfails = ref 0
+let propfail what id detail =
+  incr propfails;
+  incr printed;
+  if !printed <= 100 then Printf.printf "PROPFAIL %s %s %s\n" what id detail
+let eq_of (x : q) : E.q = { E.qnum = x.qnum; E.qden = x.qden }
+let q_of_e (x : E.q) : q = { qnum = x.E.qnum; qden = x.E.qden }
+let zq (x : q) : Q.t = Q.make x.qnum x.qden
+let rel12 = { qnum = B.unit_big_int; qden = B.big_int_of_string "1000000000000" }
+
+(* w' S^-1 w for the symmetric part S of the recorded matrix, exactly; None when a pivot is not positive (S not
+   positive definite: elimination without pivoting is the LDL' factorisation) *)
+let exact_form (h : Q.t array array) (w : Q.t array) : Q.t option =
+  let n = Array.length w in
+  let a = Array.init n (fun i -> Array.init n (fun j -> Q.div (Q.add h.(i).(j) h.(j).(i)) (Q.of_int 2))) in
+  let b = Array.copy w in
+  let ok = ref true in
+  (try
+    for c = 0 to n - 1 do
+      if Q.sign a.(c).(c) <= 0 then (ok := false; raise Exit);
+      for r = c + 1 to n - 1 do
+        let m = Q.div a.(r).(c) a.(c).(c) in
+        if Q.sign m <> 0 then begin
+          for j = c to n - 1 do a.(r).(j) <- Q.sub a.(r).(j) (Q.mul m a.(c).(j)) done;
+          b.(r) <- Q.sub b.(r) (Q.mul m b.(c))
+        end
+      done
+    done
+  with Exit -> ());
+  if not !ok then None
+  else begin
+    let z = Array.make n Q.zero in
+    for i = n - 1 downto 0 do
+      let s = ref b.(i) in
+      for j = i + 1 to n - 1 do s := Q.sub !s (Q.mul a.(i).(j) z.(j)) done;
+      z.(i) <- Q.div !s a.(i).(i)
+    done;
+    let m = ref Q.zero in
+    Array.iteri (fun i wi -> m := Q.add !m (Q.mul wi z.(i))) w;
+    Some !m
+  end
+
+let ell_tol = 1e-6   (* slack of the membership test: rounding of the implementation accumulated over a run *)
+
+let handle_ell id rest =
+  let parts = List.map String.trim (String.split_on_char '|' rest) in
+  let a = kvs (List.nth parts 0) in
+  let n = int_of_string (get a "n") and k = get a "k" in
+  let idk = id ^ " k=" ^ k in
+  let ff = parse_float (List.nth parts 1) and fb = parse_float (List.nth parts 2) and fg = parse_float (List.nth parts 3) in
+  let x = qs_of (List.nth parts 4) and g = qs_of (List.nth parts 5) and h = parse_rows (List.nth parts 6) in
+  let x' = qs_of (List.nth parts 7) and h' = parse_rows (List.nth parts 8) and xs = qs_of (List.nth parts 9) in
+  incr total; incr ell_steps;
+  if List.length x <> n || List.length g <> n || List.length h <> n || List.length x' <> n || List.length h' <> n || List.length xs <> n then
+    report "ell-shape" idk "wrong number of values"
+  else begin
+    let f = q_of_float ff and best = q_of_float fb and ghg = q_of_float fg in
+    if ff < fb then report "ell-best" idk (Printf.sprintf "best=%h > f=%h: state.fx() is not the best value seen" fb ff);
+    (* ---- (a) model against the recorded update ---- *)
+    if n = 1 then begin
+      let c = List.hd x and hh = List.hd (List.hd h) and gg = List.hd g in
+      let (c1, h1) = ell1_next c hh gg in
+      if not (close c1 (List.hd x') (rel9 */ (qabs c +/ qabs hh))) || not (close h1 (List.hd (List.hd h')) (rel9 */ qabs hh)) then
+        report "ell-update-1d" idk (Printf.sprintf "model x'=%h H'=%h impl x'=%h H'=%h" (float_of_q c1) (float_of_q h1)
+                                     (float_of_q (List.hd x')) (float_of_q (List.hd (List.hd h'))));
+      if not (close (ell1_gHg hh gg) ghg (rel9 */ qabs ghg)) then
+        report "ell-gHg" idk (Printf.sprintf "model=%h impl=%h" (float_of_q (ell1_gHg hh gg)) fg)
+    end else begin
+      let s = q_of_float (Float.sqrt fg) in
+      if not (close (s */ s) ghg (rel12 */ qabs ghg)) || not (qlt qz s) then
+        report "ell-sqrt" idk (Printf.sprintf "s=%h gHg=%h" (float_of_q s) fg)
+      else begin
+        (* magnitudes: hgabs_i = sum_j |H_ij g_j|, ghabs_j = sum_i |g_i H_ij|, mg = sum_ij |g_i H_ij g_j| *)
+        let hgabs = List.map (fun row -> List.fold_left2 (fun acc hij gj -> acc +/ qabs (hij */ gj)) qz row g) h in
+        let ghabs = List.mapi (fun j _ -> List.fold_left2 (fun acc row gi -> acc +/ qabs (gi */ List.nth row j)) qz h g) g in
+        let mg = List.fold_left2 (fun acc hg gi -> acc +/ qabs gi */ hg) qz hgabs g in
+        let ghg_exact = q_of_e (E.en_gHg E.qcO (List.map (List.map eq_of) h) (List.map eq_of g)) in
+        if not (close ghg_exact ghg (rel9 */ mg)) then
+          report "ell-gHg" idk (Printf.sprintf "model=%h impl=%h terms=%h" (float_of_q ghg_exact) fg (float_of_q mg));
+        let amp = qdiv mg ghg in
+        if qlt (q_of_int 10000) amp then (incr ambiguous; incr amb_elln)
+        else begin
+          let nf = q_of_int n in
+          let st = { E.ex = List.map eq_of x; E.eH = List.map (List.map eq_of) h; E.ebest = eq_of best } in
+          let o = { E.ef = eq_of f; E.eg = List.map eq_of g; E.es = eq_of s } in
+          let r = E.en_step_qc (eq_of nf) st o in
+          let alpha = qdiv (f -/ best) s in
+          let tau = qdiv (q1 +/ nf */ qabs alpha) (nf +/ q1) in
+          let cc = qdiv (nf */ nf) (nf */ nf -/ q1) */ (q1 +/ alpha */ alpha) in
+          let sigma = qdiv (q_of_int 2 */ (q1 +/ nf */ qabs alpha)) ((nf +/ q1) */ (q1 +/ alpha)) in
+          (* centre *)
+          let i = ref 0 in
+          List.iter2 (fun (xm, xi) (xo, hg) ->
+            let tol = rel9 */ (qabs xi +/ amp */ (tau +/ qabs alpha) */ qdiv hg s) in
+            let xm = q_of_e xm in
+            if not (close xm xo tol) then
+              report "ell-centre" idk (Printf.sprintf "i=%d model=%h impl=%h tol=%h alpha=%h" !i (float_of_q xm) (float_of_q xo) (float_of_q tol) (float_of_q alpha));
+            incr i) (List.combine r.E.ex x) (List.combine x' hgabs);
+          (* shape matrix *)
+          let bad = ref false in
+          List.iteri (fun i (rm, (ro, rh)) ->
+            List.iteri (fun j (hm, (ho, hij)) ->
+              let hm = q_of_e hm in
+              let tol = rel9 */ amp */ cc */ (qabs hij +/ (sigma +/ q1) */ qdiv (List.nth hgabs i */ List.nth ghabs j) ghg) in
+              if (not !bad) && not (close hm ho tol) then begin
+                bad := true;
+                report "ell-shape-matrix" idk (Printf.sprintf "i=%d j=%d model=%h impl=%h tol=%h alpha=%h n=%d" i j (float_of_q hm) (float_of_q ho) (float_of_q tol) (float_of_q alpha) n)
+              end) (List.combine rm (List.combine ro rh))) (List.combine r.E.eH (List.combine h' h))
+        end
+      end
+    end;
+    (* ---- (b) the minimiser stays inside (model independent) ---- *)
+    let w = Array.of_list (List.map2 (fun a b -> Q.sub (zq a) (zq b)) xs x') in
+    incr ell_member;
+    if Array.for_all (fun wi -> Q.sign wi = 0) w then ()   (* the centre is the minimiser *)
+    else begin
+      let hm = Array.of_list (List.map (fun row -> Array.of_list (List.map zq row)) h') in
+      (* n = 1: the bisection branch keeps |x* - x| <= 2 H *)
+      let hm = if n = 1 then [| [| Q.mul (Q.of_int 4) (Q.mul hm.(0).(0) hm.(0).(0)) |] |] else hm in
+      match exact_form hm w with
+      | None -> propfail "ellipsoid-shape-not-positive-definite" idk (Printf.sprintf "n=%d after the update of iteration %s" n k)
+      | Some m ->
+          let mf = Q.to_float m in
+          if mf > !ell_worst then ell_worst := mf;
+          if Q.gt m (Q.of_float (1.0 +. ell_tol)) then
+            propfail "ellipsoid-minimiser-outside" idk
+              (Printf.sprintf "n=%d (x*-x')'H'^-1(x*-x') = %.17g > 1 after the update of iteration %s: x*=%s x'=%s" n mf k
+                 (List.nth parts 9) (List.nth parts 7))
+    end
+  end
+
 let () =
   let nlines = ref 0 in
   (try
@@ -315,6 +457,11 @@ let () =
           let rest = String.sub line 3 (String.length line - 3) in
           let i = String.index rest ' ' in
           handle_e1 (String.sub rest 0 i) (String.sub rest (i + 1) (String.length rest - i - 1))
+        end
+        else if String.length line > 4 && String.sub line 0 4 = "ELL " then begin
+          let rest = String.sub line 4 (String.length line - 4) in
+          let i = String.index rest ' ' in
+          handle_ell (String.sub rest 0 i) (String.sub rest (i + 1) (String.length rest - i - 1))
         end
         else if String.length line > 2 && String.sub line 0 2 = "D " then begin
           match List.map int_of_string (List.filter (fun t -> t <> "") (String.split_on_char ' ' (String.sub line 2 (String.length line - 2)))) with
@@ -345,5 +492,5 @@ let () =
       | ex -> report "driver-exception" (Printf.sprintf "line %d" !nlines) (Printexc.to_string ex ^ " :: " ^ (if String.length line > 160 then String.sub line 0 160 else line)))
     done
   with End_of_file -> ());
-  Printf.printf "MODEL-DONE checked=%d mismatches=%d ambiguous_skipped=%d amb_solve2=%d amb_conv=%d amb_ell1=%d multistep_states=%d simplex_worst=%h sigma_worst=%h\n"
-    !total !mism !ambiguous !amb_solve !amb_conv !amb_ell !multi_checked !simplex_worst !sigma_worst
+  Printf.printf "MODEL-DONE checked=%d mismatches=%d ambiguous_skipped=%d amb_solve2=%d amb_conv=%d amb_ell1=%d multistep_states=%d simplex_worst=%h sigma_worst=%h ellipsoid_steps_checked=%d ellipsoid_membership_checked=%d amb_elln=%d ellipsoid_membership_worst=%.17g propfails=%d\n"
+    !total !mism !ambiguous !amb_solve !amb_conv !amb_ell !multi_checked !simplex_worst !sigma_worst !ell_steps !ell_member !amb_elln !ell_worst !propfails
